@@ -291,7 +291,49 @@ pub fn corpus(tier: Tier) -> (Vec<C19Program>, u64, serde_json::Value) {
         b.name = "En".into();
         out.push(C19Program { label: format!("B{}", n), k: 0, spec: b });
     }
-    (out, excluded, json!({"N": [1, 3], "k_max": k, "configurations": CONFIGS, "derives": "every non-deprecated derive the enum admits"}))
+    // SCALE: 20-variant enums (code paths that depend on the number of variants), three feature mixes
+    for mix in 0..3usize {
+        let mut b = EnumSpec::base(0);
+        b.name = "En".into();
+        for i in 0..20usize {
+            let mut v = VariantSpec::unit(&format!("Var{}Name", i));
+            if i % 6 == 4 {
+                v.disabled = true;
+            }
+            if i % 5 == 1 {
+                v.aci = Some(Aci::Bare);
+            }
+            if i % 4 == 2 {
+                v.message = Some(format!("m{}", i));
+                v.props = vec![vec![("a".into(), PropLit::S("s".into())), ("n".into(), PropLit::I(i as i64))]];
+            }
+            if i % 7 == 3 {
+                v.serialize = vec![format!("alt{}", i), format!("Alt-{}", i)];
+            }
+            if mix >= 1 {
+                match i % 3 {
+                    1 => v.kind = Kind::Tuple(vec![FieldTy::U8, FieldTy::Bool]),
+                    2 => v.kind = Kind::Named(vec![NamedField { name: "x".into(), ty: FieldTy::I32, default_with: false }]),
+                    _ => {}
+                }
+            }
+            b.variants.push(v);
+        }
+        if mix == 0 {
+            b.repr = Some("u8".into());
+            b.variants[3].disc = Some("40".into());
+            b.serialize_all = Some("kebab-case".into());
+        }
+        if mix == 2 {
+            b.generics = vec![Generic::Type { name: "T".into(), bounds: "Default".into() }];
+            b.variants[0].kind = Kind::Tuple(vec![FieldTy::T]);
+            b.prefix = Some("p/".into());
+        }
+        if in_domain(&b) {
+            out.push(C19Program { label: format!("SCALE: 20 variants, mix {}", ["unit + repr(u8) + kebab-case", "all kinds", "all kinds + generic<T: Default> + prefix"][mix]), k: 1, spec: b });
+        }
+    }
+    (out, excluded, json!({"N": [1, 3, 20], "k_max": k, "configurations": CONFIGS, "derives": "every non-deprecated derive the enum admits"}))
 }
 
 /// the non-deprecated derives an enum admits
